@@ -149,7 +149,9 @@ Inductive case := CRun (k : run) | CProbe (p : probe).
 Definition check_case (c : case) : bool :=
   match c with CRun k => check_run k | CProbe p => check_probe p end.
 
-(* The probe runs `yr scan --timeout`; what happens after a timeout is outside
-   the property's text (the driver reports an observed hang as a finding). *)
+(* The probe runs `yr scan --timeout` on capacity + 1 / capacity + 2 files with
+   one worker whose first scan times out: the process must exit (regression
+   case of the hang repaired by 686deaba: a hang means files that are never
+   reported and a scanner that never returns). *)
 Definition spec_case (c : case) : bool :=
-  match c with CRun k => spec_run k | CProbe _ => true end.
+  match c with CRun k => spec_run k | CProbe p => negb (p_hung p) end.
